@@ -23,7 +23,8 @@ def parse_logs():
             if m:
                 cur = (m.group(1), m.group(2))
                 res.setdefault(cur, {'checks': {}})
-                res[cur]['title'] = m.group(3).strip()[:200]
+                if m.group(3).strip() != 'x' or 'title' not in res[cur]:
+                    res[cur]['title'] = m.group(3).strip()[:200]
                 stage = None
                 continue
             if cur is None:
